@@ -195,6 +195,7 @@ var (
 	errUDPMuxDisabled                = errors.New("UDPMux is not enabled")
 	errUnknownRole                   = errors.New("unknown role")
 	errWrite                         = errors.New("failed to write")
+	errStreamingPacketTooLarge       = errors.New("packet too large for 16-bit length framing")
 	errWriteSTUNMessage              = errors.New("failed to send STUN message")
 	errWriteSTUNMessageToIceConn     = errors.New("failed to write STUN message to ICE connection")
 	errXORMappedAddrTimeout          = errors.New("timeout while waiting for XORMappedAddr")
